@@ -58,6 +58,55 @@ def run_callers(su: Setup, callers: list[Caller], deviations: typing.Sequence[tu
     rt.run()
 
 
+class ParkedWaiterOracle:
+    """C07, first sentence, sampled whenever the whole system is at rest (every
+    task blocked, before the clock moves): a request is waiting for a
+    connection only while no pooled connection for its origin is available,
+    the pool is at its limit and nothing idle could be evicted.  The waiting
+    callers are identified through the public interface: repr(pool) gives
+    their number, and they are the unfinished callers none of whose bytes has
+    been written yet; if that does not single them out, no verdict."""
+
+    def __init__(self, su: Setup, callers: list[Caller], N: int, sig: str, prop: str = "C07") -> None:
+        self.su, self.callers, self.N, self.sig, self.prop = su, callers, N, sig, prop
+        self.samples = 0
+        vrt.RT.on_idle = self.sample
+
+    def _targets_seen(self) -> list[bytes]:
+        """Request targets that have reached a server so far (even partly)."""
+        out: list[bytes] = []
+        for o in self.su.origins:
+            for st in getattr(o, "streams", {}).values():  # HTTP/2 origin
+                out += [v for k, v in st["headers"] if k == b":path"]
+            out += [r.target for r in getattr(o, "requests", ())]  # HTTP/1.1 origin
+            buf = getattr(o, "buf", b"")
+            if buf:
+                out.append(buf.split(b"\r\n", 1)[0].split(b" ")[1] if buf.count(b" ") else b"")
+        return [t[t.rfind(b"/"):] for t in out]
+
+    def sample(self) -> bool:
+        su = self.su
+        q = scen.n_queued(su.pool)
+        if not q:
+            return False
+        cand = [c for c in self.callers if not c.finished and vrt.RT.task(c.name).state == "blocked"
+                and ("/" + c.name).encode() not in self._targets_seen()]
+        if len(cand) != q:
+            return False
+        self.samples += 1
+        P.cover("waiter-sampled-at-rest")
+        conns = list(su.pool.connections)
+        for c in cand:
+            origin = httpcore.URL(c.url).origin
+            can = [x for x in conns if x.can_handle_request(origin) and x.is_available()]
+            P.check(not can, "waits-only-while-no-pooled-connection-can-take-it",
+                    lambda: f"{self.sig}:parked-behind-available:{su.where()}", prop=self.prop)
+        P.check(len(conns) >= self.N, "waits-only-while-pool-is-full", f"{self.sig}:parked-with-room", prop=self.prop)
+        P.check(not [x for x in conns if x.is_idle()], "waits-only-while-nothing-evictable",
+                f"{self.sig}:parked-with-evictable", prop=self.prop)
+        return False
+
+
 def token_oracle(callers: list[Caller], prop: str, sig: str) -> None:
     """Every response a caller received is the one the server sent for that
     caller's own request."""
